@@ -1136,7 +1136,14 @@ static void valueFlowImpossibleValues(TokenList& tokenList, const Settings& sett
             }
 
         } else if (Token::simpleMatch(tok, "%") && tok->astOperand2() && tok->astOperand2()->hasKnownIntValue()) {
-            ValueFlow::Value value{tok->astOperand2()->getKnownIntValue()};
+            // the result is below the magnitude of the divisor, whatever the sign of the divisor
+            MathLib::bigint divisor = tok->astOperand2()->getKnownIntValue();
+            if (divisor < 0) {
+                if (divisor == std::numeric_limits<MathLib::bigint>::min())
+                    continue;
+                divisor = -divisor;
+            }
+            ValueFlow::Value value{divisor};
             value.bound = ValueFlow::Value::Bound::Lower;
             value.setImpossible();
             setTokenValue(tok, std::move(value), settings);
